@@ -22,7 +22,8 @@ macro "ex_core" : tactic => `(tactic|
 /-- distribute complex conjugation; parameters are real (hypothesis `hr` in context) -/
 macro "ex_conj" : tactic => `(tactic|
   simp only [map_mul, map_add, map_sub, map_neg, map_div₀, map_inv₀, map_pow, map_one, map_zero,
-    map_ofNat, Complex.conj_I, Complex.conj_ofReal, ← Complex.exp_conj, *])
+    map_ofNat, map_ratCast, map_natCast, map_intCast, Complex.conj_I, Complex.conj_ofReal,
+    ← Complex.exp_conj, ← Complex.cos_conj, ← Complex.sin_conj, *])
 
 /-- closes `eval env e₁ = eval env e₂` for the closed forms of epgpy -/
 macro "ex_eq" : tactic => `(tactic|
